@@ -92,6 +92,8 @@ ROWS = {
     'name_attr': (lambda: MName(id='a'), 'b.c', lambda n: isinstance(n, ast.Name) and n.id == 'a',
                   lambda n, sub: ast.Attribute(value=ast.Name(id='b', ctx=ast.Load()), attr='c', ctx=type(n.ctx)())),
     'identity_binop': (lambda: MBinOp(), '__FST_', lambda n: isinstance(n, ast.BinOp), None),
+    'str_slot': (lambda: MCall(func=MName(id='f'), args=[M(x=...)], keywords=[]), 'log("got __FST_x!", __FST_x)', _is_f_call1,
+                 lambda n, sub: ast.Call(func=ast.Name(id='log', ctx=ast.Load()), args=[ast.Constant(value='got ' + ast.unparse(n.args[0]) + '!'), sub(n.args[0])], keywords=[])),
     'list_split': (lambda: MList(elts=[M(first=...), MQSTAR(rest=...)]), '(__FST_first, [__FST_rest])', lambda n: isinstance(n, ast.List) and len(n.elts) >= 1 and isinstance(n.ctx, ast.Load),
                    lambda n, sub: ast.Tuple(elts=[sub(n.elts[0]), ast.List(elts=[sub(e) for e in n.elts[1:]], ctx=ast.Load())], ctx=ast.Load())),
 }
@@ -143,6 +145,8 @@ def _mk(key, row):
     def fn(count: int, nested: bool, leave: bool):
         assume(-2 <= count <= 12)
         cnt = pc.pin(count, -2, 12)
+        if row == 'str_slot':
+            assume(not nested and not leave)      # the text put into the string is the capture's source at that moment: only unambiguous when nothing inside it is rewritten first
         with pc.untraced():
             root = FST(src, 'exec')
             pc.reset_globals()
@@ -168,7 +172,7 @@ def _mk(key, row):
             check(pc.R(ntot) == pc.R(nuniq), 'sub.total_count_differs_without_loop', (pc.R(nuniq), pc.R(ntot)))
             before = sorted(v for k_, v, _ in _toks(src) if k_ == 'COMMENT')
             after = sorted(v for k_, v, _ in _toks(pc.R(root.src)) if k_ == 'COMMENT')
-            if row != 'call_wrap' or key != 'calls':     # 'calls' has a comment INSIDE a matched node (allowed to go with it)
+            if row not in ('call_wrap', 'str_slot') or key != 'calls':     # 'calls' has a comment INSIDE a matched node (allowed to go with it)
                 check(after == before, 'sub.comment_lost_or_duplicated_outside_substituted_nodes', (key, row, before, after))
             else:
                 check(set(after) <= set(before), 'sub.comment_appeared_from_nowhere', (before, after))
@@ -179,7 +183,7 @@ def _mk(key, row):
 
 FNU = ['fst.match.subn', 'fst.match.sub', 'fst.match.search', 'fst.match._sub_quantifier_list_edge_item', 'fst.fst_traverse.walk', 'fst.fst_put_one._put_one']
 CELLS = []
-for _k, _rows in (('calls', ('call_wrap', 'identity_binop')), ('names', ('name_attr',)), ('lists', ('list_split',)), ('binops', ('identity_binop', 'name_attr'))):
+for _k, _rows in (('calls', ('call_wrap', 'identity_binop', 'str_slot')), ('names', ('name_attr',)), ('lists', ('list_split',)), ('binops', ('identity_binop', 'name_attr'))):
     for _r in _rows:
         CELLS.append(Cell(f'P1.sub[{_k},{_r}]', _mk(_k, _r), 'P', FNU,
                           f'carrier {_k}; pattern/template row {_r} ({ROWS[_r][1]!r}); count symbolic in -2..12, nested and on=leave booleans',
